@@ -426,6 +426,15 @@ def apply_op(fam, m, op, state):
             cur_n = m.train_targets.shape[-1]
             newy = f.y3 if cur_n == f.n else torch.cos(m.train_inputs[0].sum(-1) * 1.3)
         m.set_train_data(targets=newy, strict=False)
+    elif op == "set_data_inplace":
+        # the training tensors are edited in place and handed to set_train_data again (the same tensor OBJECTS): the documented
+        # way of telling the model that its data changed
+        with torch.no_grad():
+            for t_ in train_inputs_of(m) if isinstance(train_inputs_of(m), (list, tuple)) else [train_inputs_of(m)]:
+                if t_.dtype.is_floating_point:
+                    t_.mul_(0.9).add_(0.11)
+            m.train_targets.mul_(0.8).add_(0.05)
+        m.set_train_data(inputs=m.train_inputs if len(m.train_inputs) > 1 else m.train_inputs[0], targets=m.train_targets, strict=True)
     elif op == "set_data_refused":
         # a strict set_train_data that the model refuses (targets of another shape next to acceptable inputs): the caller
         # catches the error and goes on - the model is either unchanged or consistently changed, never half of each
